@@ -11,7 +11,7 @@ Kinds == {"sstr", "lstr", "bstr", "bstr2", "arr", "obj", "num", "tagged"}
 Scenarios == {"parse", "parse-assign", "copy", "copy-assign", "move-assign", "push_back", "insert_or_assign", "erase-insert", "merge", "dump", "dump-pretty",
               "cbor-roundtrip", "msgpack-roundtrip", "ubjson-roundtrip", "bson-roundtrip", "jsonpath", "jmespath", "pointer-add", "flatten", "compare",
               "stateful-parse", "stateful-copy", "stateful-assign", "stateful-insert",
-              "merge-rvalue", "ojson-ops", "stateful-o-parse", "stateful-o-copy", "stateful-o-assign", "stateful-o-insert"}
+              "merge-rvalue", "ojson-ops", "mergepatch", "diffs", "jsonpath-replace", "csv-roundtrip", "toon-roundtrip", "typed", "cursor", "sort-erase", "stateful-o-parse", "stateful-o-copy", "stateful-o-assign", "stateful-o-insert"}
 Cases == { [scn |-> s, doc |-> d, text |-> Docs[d]] : s \in Scenarios, d \in DocNames } \cup
          { [scn |-> "patch", doc |-> p, text |-> Docs["small"], patch |-> Patches[p]] : p \in DOMAIN Patches } \cup
          { [scn |-> "schema", doc |-> "small", text |-> Docs["small"]] } \cup
